@@ -20,7 +20,7 @@ Definition r_tres (r : tres) : str :=
 
 Definition r_ekind (k : ekind) : str :=
   match k with
-  | KLate => s2l "late" | KExceeds => s2l "exceeds" | KInvDir => s2l "invdir"
+  | KBig => s2l "big" | KLate => s2l "late" | KExceeds => s2l "exceeds" | KInvDir => s2l "invdir"
   | KPlan2 => s2l "plan2" | KPlanSkip => s2l "planskip" | KPlanDir => s2l "plandir"
   | KVerPos => s2l "verpos" | KVerLow => s2l "verlow" | KYaml => s2l "yaml"
   | KFew => s2l "few" | KMany => s2l "many" | KDup => s2l "dup" | KMissing => s2l "missing"
